@@ -55,6 +55,7 @@ TRUSTED_COMMON = [
 ]
 
 PROPS = {}
+ALL12 = [f"{c}-v{v}-f{f}" for c in ("off", "paths", "models") for v in (0, 1) for f in (0, 1)]
 
 PROPS["C06"] = dict(
     level_text="Machine-checked proof (Lean 4) that every sequence of diagram-building operations from the fresh store - and the node-list rebuild and the bridge replay from any "
@@ -67,7 +68,10 @@ PROPS["C06"] = dict(
                "usize as Nat; HashMap as abstract map; calling the public Bdd::node with unordered children is a stated precondition.",
     technique="Lean 4 proof (invariant by induction over operation sequences, canonicity by strong induction) + correspondence check + verified table checker on real dumps",
     jobs=[Job("bdd", 1500, 60000, size=6, size_thorough=7,
-              relevant=heads(*OPS, "dump", "wfcheck", "classes", "alltt"), nontrivial=nt_bdd)],
+              relevant=heads(*OPS, "dump", "wfcheck", "classes", "alltt"), nontrivial=nt_bdd),
+          Job("persist", 400, 10000, size=5, size_thorough=6, relevant=heads("pop", "pjson", "prebuild", "pfinish", "wfcheck"),
+              nontrivial=lambda st: int(st.get("trips", 0)) >= 1 and int(st.get("nodes", 0)) >= 3, label="reimport"),
+          Job("adf", 300, 10000, size=6, extra=("sem",), relevant=heads("adopt", "adump", "wfcheck"), nontrivial=lambda st: int(st.get("nodes", 0)) >= 5, label="bridge")],
     rule="random operation sequences (3-45 ops over 2-6 variables: var/const/not/and/or/imp/iff/xor/restrict on earlier results) on one shared Bdd; "
          "after each sequence the real node table is dumped and checked by the verified wfCheck, handle equality of ALL issued handles is compared with "
          "truth-table equality, and the table is compared index by index with the model's; non-trivial = distinct sequence creating >= 3 inner nodes",
@@ -100,8 +104,10 @@ PROPS["C13"] = dict(
     level_note="Trusted: Lean kernel + standard axioms (Counts.lean imports Mathlib.Tactic.Ring for arithmetic); usize modelled as Nat (depth <= 63 in the tie); TT.depth / TT.paths (canonical-diagram "
                "measures computed from the function) are executable specification without a linking theorem; correspondence is differential over generated sequences (<= 7 variables).",
     technique="Lean 4 proof (induction on the diagram, Shannon counting, path enumeration) + correspondence check against model and truth-table specification",
-    jobs=[Job("bdd", 1500, 60000, size=6, size_thorough=7,
-              relevant=heads("q", "cubes", "cubecheck", "impact"), nontrivial=nt_bdd)],
+    jobs=[Job("bdd", 1000, 40000, size=6, size_thorough=7, fsets=("default", "none", "all"), fsets_thorough=ALL12,
+              relevant=heads("q", "cubes", "cubecheck", "impact"), nontrivial=nt_bdd),
+          Job("persist", 400, 10000, size=5, size_thorough=6, relevant=heads("pq", "pmemocheck"),
+              nontrivial=lambda st: int(st.get("trips", 0)) >= 1 and int(st.get("nodes", 0)) >= 3, label="after-import")],
     rule="operation sequences as for C06; for EVERY issued handle: paths/models (naive and memoised), depth, dependencies, more_models; path cubes for random (goal, goal variable); "
          "impact measures on random handle lists; each answer compared with the Lean model (exact) and with the truth-table specification; non-trivial = distinct sequence with >= 3 inner nodes",
     assumptions=["depth <= 63 (usize arithmetic) for the tie", "terminal diagrams have no cube (reading fixed in DESIGN.md section 5)"],
@@ -290,7 +296,6 @@ PROPS["C15"] = dict(
 )
 
 
-ALL12 = [f"{c}-v{v}-f{f}" for c in ("off", "paths", "models") for v in (0, 1) for f in (0, 1)]
 PROPS["C12"] = dict(
     level_text="Machine-checked proof (Lean 4): BOTH bodies of every cfg split of obdd.rs are modelled (FeatureVariants: Cfg, nodeC, restrictC with the variable-list shortcut, iteCfg, the incrementally "
                "maintained dependency table, the ad-hoc count bookkeeping in node, modelcount_memoization, max_depth, new, fix_import) and proved equal to the reference model: same handles and node "
@@ -337,6 +342,124 @@ PROPS["C18"] = dict(
          "matching / almost-matching / total ones; store dump after every add, conclusions and conclusion_closure answers judged by the brute-force specification and compared with the model; "
          "non-trivial = distinct history with >= 2 nogoods and >= 1 conflict or conclusion",
     assumptions=["nogoods/interpretations are vectors of the store's width (add_ng panics beyond: stated precondition)"],
+)
+
+
+PERSIST_HEADS = ("pop", "psem", "pq", "pjson", "prebuild", "pmemocheck", "pfinish", "wfcheck")
+
+
+def nt_persist(st):
+    return int(st.get("trips", 0)) >= 1 and int(st.get("nodes", 0)) >= 3
+
+
+PROPS["C20"] = dict(
+    level_text="Machine-checked proof (Lean 4) about literal state-machine models of both iterators (find-then-reset two-valued odometer; decrement_vec with its two loops, started/current/indexes/original) "
+               "AND about the functions the ADF driver runs (twoValAll / threeValAll): for every vector, exactly 2^k total completions resp. 3^k refinements (C20.two_count, three_count), no vector twice "
+               "(two_nodup, three_nodup), membership iff completion / refinement (two_exact, three_exact), decided positions never altered (two_decided_kept, three_decided_kept), the three-valued one "
+               "starts with the interpretation itself (three_first), the literal iterators answer None by themselves after exactly that many items (two_literal_terminates, three_literal_terminates) and "
+               "the fuel of the driver's functions is irrelevant above 2^k / 3^k (two_fuel, three_fuel). Tie to the code: collect() of the real iterators, element by element, on random vectors and "
+               "exhaustively on all patterns up to length 4 (quick) / 6 (thorough).",
+    level_note="Trusted: Lean kernel + standard axioms; the tie is differential (random vectors up to length 10 with <= 6 undecided; the exhaustive small-scope runs are tests, labelled as such).",
+    technique="Lean 4 proof (odometer = reference enumeration, by induction) + correspondence check",
+    jobs=[Job("iter", 1500, 20000, size=10, relevant=heads("it2", "it3"), nontrivial=lambda st: int(st.get("undecided", 0)) >= 1),
+          Job("iter", 1, 1, size=104, size_thorough=106, relevant=heads("it2", "it3"),
+              nontrivial=lambda st: int(st.get("undecided", 0)) >= 1, label="iter-exhaustive")],
+    rule="random vectors (length 0-10, <= 6 undecided, handles 0/1/other) and every decided/undecided pattern up to length 4 (thorough: 6); the full yielded sequence is compared with the model, and "
+         "count / Nodup / completeness / first element with the reference enumeration; non-trivial = distinct vector with >= 1 undecided position",
+    assumptions=[],
+)
+PROPS["C19"] = dict(
+    level_text="Machine-checked proof (Lean 4) for a literal model of Bdd::recv (try_recv loop; Empty and Disconnected alike; store without receiver) in a producer - relay - receiver system with FIFO "
+               "channels, for EVERY sequence of events create / deliver k / relayPoll / recvPoll / prodPoll from fresh stores: after k consumed messages the receiver holds exactly the producer's first k+2 "
+               "nodes in order, the relay likewise (C19.mirror_prefix), nothing is lost, duplicated or reordered (stream_conservation), drained channels give identical tables also through the chain "
+               "(drained_equal, drain_reaches_equal), a poll answers found iff the handle is present after polling (poll_found_iff) and consumes exactly what it must (poll_exact), the relay forwards "
+               "exactly what it consumed (relay_forwards); the same with the proved diagram store as producer (mirror_prefix_store, drained_equal_store). Tie to the code: a real producer Bdd on its own "
+               "thread with a zero-capacity sender, the harness forwarding message by message so that every cut of the stream can be placed before every poll deterministically, plus a relay, plus "
+               "free-running two-thread soak runs; node tables compared index by index with the model.",
+    level_note="Trusted: Lean kernel + standard axioms; crossbeam-channel FIFO/lossless behaviour and thread timing are assumptions observed by the cut-controlled and soak runs; the receiver's unique table "
+               "and variable lists are not modelled (recv appends nodes verbatim).",
+    technique="Lean 4 proof (invariant over all event interleavings of a FIFO system) + schedule-controlled correspondence with the real channel implementation",
+    jobs=[Job("stream", 800, 20000, size=5, size_thorough=6, fsets_thorough=("default", "off-v0-f1", "models-v1-f1"),
+              relevant=heads("sdeliver", "srelaypoll", "spoll", "sprodpoll", "sjoin", "sdump", "ssoak"),
+              nontrivial=lambda st: int(st.get("msgs", st.get("nodes", 0))) >= 3),
+          Job("stream", 100, 5000, size=105, size_thorough=106, relevant=heads("ssoak"),
+              nontrivial=lambda st: st.get("soak") == "1" and int(st.get("midstream", 0)) >= 1, label="stream-soak")],
+    rule="producer operation sequences x cut vectors (how many messages are delivered before each poll) x requested handles (absolute and relative to the current table), relay chain of length 2; soak: "
+         "free-running producer thread with concurrent polls; non-trivial = distinct schedule with >= 3 streamed nodes (soak: at least one poll fell mid-stream)",
+    assumptions=["requires the frontend feature"],
+)
+
+def extra_c14_features(prop, tier, seed):
+    """the CLI built with variable lists but without ad-hoc counting must import an exported state
+    and give the same answers (D11)"""
+    import random
+    import subprocess
+    tdir = os.path.join(R.TARGET, "repo-vl")
+    with R.Lock("cargo"):
+        rc, out, err = R.run(["cargo", "build", "--offline", "-p", "adf-bdd-bin", "--no-default-features", "--features", "variablelist"],
+                             cwd=R.REPO, env={"CARGO_TARGET_DIR": tdir}, timeout=3600)
+    if rc != 0:
+        m = R.Mismatch("struct", 0, 0, "build adf-bdd --no-default-features --features variablelist", "does not build", "builds", [])
+        return dict(corr_mism=[m], evaluations=0, distinct_nontrivial=0, summary="variant binary does not build")
+    variant = os.path.join(tdir, "debug", "adf-bdd")
+    default = R.repo_bin("adf-bdd")
+    rnd = random.Random(seed)
+    tmp = os.path.join(R.BUILD, "tmp", "c14-%d" % os.getpid())
+    os.makedirs(tmp, exist_ok=True)
+    texts = ["s(a).s(b).s(c).ac(a,neg(b)).ac(b,neg(a)).ac(c,and(a,b)).",
+             "s(a).s(b).ac(a,c(v)).ac(b,or(a,neg(b))).",
+             "s(x).s(y).s(z).s(w).ac(x,iff(y,z)).ac(y,xor(z,w)).ac(z,imp(x,w)).ac(w,neg(x))."]
+    n = 3 if tier == "quick" else 12
+    while len(texts) < n:
+        k = rnd.randint(2, 5)
+        names = [f"s{i}" for i in range(k)]
+
+        def fm(d):
+            if d == 0 or rnd.random() < 0.3:
+                return rnd.choice(names + ["c(v)", "c(f)"])
+            op = rnd.choice(["and", "or", "imp", "iff", "xor", "neg"])
+            return f"neg({fm(d - 1)})" if op == "neg" else f"{op}({fm(d - 1)},{fm(d - 1)})"
+        texts.append("".join(f"s({x})." for x in names) + "".join(f"ac({x},{fm(3)})." for x in names))
+    mism = []
+    samples = []
+    for i, t in enumerate(texts):
+        f = os.path.join(tmp, f"in{i}.adf")
+        j = os.path.join(tmp, f"st{i}.json")
+        open(f, "w").write(t)
+        if os.path.exists(j):
+            os.remove(j)
+        d = subprocess.run([default, "--lib", "naive", "--grd", "--com", "--stm", "--export", j, f], capture_output=True)
+        v = subprocess.run([variant, "--lib", "naive", "--import", "--grd", "--com", "--stm", j], capture_output=True)
+        req = f"cli-feature-import variablelist-only {t}"
+        if d.returncode != 0 or v.returncode != 0 or d.stdout != v.stdout:
+            mism.append(R.Mismatch("prop", i, 0, req, [f"exit={v.returncode} stdout={v.stdout.decode()[:200]!r}"],
+                                   [f"exit=0 stdout={d.stdout.decode()[:200]!r}"], [req]))
+        samples.append({"input": t, "import_exit": v.returncode})
+    return dict(prop_mism=mism, evaluations=len(texts), distinct_nontrivial=len(set(texts)), samples=samples[:2],
+                summary=f"{len(texts)} export(default build)/import(variablelist-only build) runs, {len(mism)} differ",
+                coverage={"feature_import_runs": len(texts)})
+
+
+PROPS["C14"] = dict(
+    extra=extra_c14_features,
+    level_text="Machine-checked proof (Lean 4) for a model of a Bdd with its bookkeeping (Store + var_deps + count_cache): export -> import -> fix_import reproduces the node table and unique table, leaves "
+               "empty memo tables, keeps WF and recomputes aligned, sound dependency lists and a total, sound count cache (C14.import_fix, import_fix_same_bookkeeping); rebuilding from the plain node "
+               "list as the web service does reproduces the same numbering (rebuild_id, simplified_roundtrip with the string codec as explicit assumption); every handle keeps its function and every "
+               "answer that is a function of (nodes, ac) or of the conditions' functions is equal (handles_keep_function, answers_equal, grounded_after_roundtrip); fix_import on a store that already "
+               "has variable lists misaligns them (fix_import_precondition, fix_import_twice_counterexample); the CLI never overwrites (export_never_overwrites). PARTIAL: that handles issued LATER on "
+               "the round-tripped object carry the same numbers as on a never-exported twin (future_ops_same_functions_partial proves same functions) is observed by the runs. Tie to the code: "
+               "serde_json round trip + fix_import and Bdd::from(nodes) at random points of random operation histories, node tables / ac / names / unique table / recomputed bookkeeping / empty memos "
+               "compared with the original, the real private tables audited (pmemocheck), operations and semantics continued against a never-exported twin; CLI --export twice and --import in C15's runs.",
+    level_note="Trusted: Lean kernel + standard axioms; serde_json and decimal parsing are assumptions observed by the runs; later handle numbering only observed (partial).",
+    technique="Lean 4 proof (rebuild = identity on well-formed tables; recomputed bookkeeping equals the invariant's) + correspondence check incl. audit of the real private tables",
+    jobs=[Job("persist", 600, 15000, size=5, size_thorough=6, fsets_thorough=("default", "none", "all", "off-v1-f0"),
+              relevant=heads(*PERSIST_HEADS), nontrivial=nt_persist),
+          Job("adf", 60, 1500, size=5, extra=("cli",), timeout=900, needs_bins=True, relevant=heads("cliexport"),
+              nontrivial=lambda st: int(st.get("n", 0)) >= 2, label="cli-export")],
+    rule="random operation histories on a real Bdd/Adf with JSON export/import + fix_import and node-list rebuilds at random points (fresh, after computations), then more operations, queries and "
+         "semantics on the re-imported object and on a never-exported twin; every 10th CLI case: --export, --export onto the existing file of another framework, --import; "
+         "non-trivial = distinct history with >= 1 round trip and >= 3 inner nodes",
+    assumptions=["fix_import exactly once after an import (stated precondition)"],
 )
 
 
@@ -687,6 +810,8 @@ def setup():
         print(err)
         return 1
     R.log(f"adf-bdd and adf-bdd-server built ({time.time() - t0:.0f} s)")
+    R.run(["cargo", "build", "--offline", "-p", "adf-bdd-bin", "--no-default-features", "--features", "variablelist"],
+          cwd=R.REPO, env={"CARGO_TARGET_DIR": os.path.join(R.TARGET, "repo-vl")}, timeout=3600)
     return 0
 
 
